@@ -275,6 +275,9 @@ def match_modulo(got_by_case, want_by_case, roles, fixed_prefixes=("box.", "$"))
     s_roles = [r for r in roles if not r.endswith(".")]
     o_roles = [r for r in roles if r.endswith(".")]
     if len(scalars) < len(s_roles) or len(prefixes) < len(o_roles):
+        # bare local names among them are values the evaluator could not trace to an input (`midpoint` out of a
+        # `match helper(..)? { Some(..) => .., None => .. }`): what they stand for may well be the missing quantities
+        match_modulo.untraced = sorted(s for s in scalars if "." not in s and "(" not in s and not s.startswith(("$", "@")))
         return None, f"the code's results mention only the symbols {scalars}, fewer than the quantities of the reference ({roles})"
     best = None
     tried = 0
